@@ -292,10 +292,16 @@ impl C16 {
                 }
             }
             Ok(Err((kind, text))) => {
+                if text.contains("reused instance panics") {
+                    cx.panic_seen(&PanicInfo { loc: "damlev (reused instance)".into(), msg: text.clone() }, || json!({"call": format!("distance({:?},{:?}) {}", a, b, ctx)}));
+                }
                 let sig = format!("C16:{}", kind);
                 cx.fail(&sig, || json!({"a": a, "b": b, "context": ctx, "problem": text, "unit_test": ut(a, b, &text)}));
             }
-            Err(p) => cx.undecided(&p, || format!("distance({:?},{:?}) {}", a, b, ctx)),
+            Err(p) => {
+                cx.panic_seen(&p, || json!({"call": format!("distance({:?},{:?}) {}", a, b, ctx)}));
+                cx.undecided(&p, || format!("distance({:?},{:?}) {}", a, b, ctx))
+            }
         }
     }
 }
